@@ -9,6 +9,8 @@ def run(chk):
     chk.trust("python semantics of the stated subset as encoded by pyvc (DESIGN 2.3)")
     chk.trust("z3 5.1.0")
     wrapper_contracts.wrapper_obligations(chk, "C18", want=("C18", "C06", "C07"))
+    from . import misc_contracts
+    misc_contracts.input_payload_contract(chk, "C18")   # the contract of get_input_payload used at the wrapper's call site, against its body
     wrapper_contracts.client_errors_wrapped(chk, "C18")
     wrapper_contracts.control_signals_not_exceptions(chk, "C18")
     wrapper_contracts.checkpoint_error_classification(chk, "C18")
